@@ -34,9 +34,11 @@ func runC17(c *Ctx) {
 	defer c.shared("R10", "C09/R3", "a container reachable from itself is recognised as such: copying an array keeps its identity (the same slice header, capacity included, on which the identity test relies)", keyHas("copy ValueArray", "copy ValueObj"), c09R3)
 	defer c.shared("R9", "C08/R4", "print writes its own arguments: the list of evaluated arguments is made per statement and not kept, so a print executed while an argument is evaluated cannot overwrite it", keyHas("expression-list"), func(s *Ctx) { exprListFresh(s, "R4") })
 	defer c.shared("R12", "C04/R3", "sharing without a cycle is printed in full: the renderer's ancestor test calls two arrays the same only when they share the last slot of their backing store (an older, shorter copy of a grown array is a different array)", keyHas("alias", "isSame"), func(s *Ctx) { isSameTable(s, "R3") })
+	defer c.shared("R14", "C15/R2", "sharing without a cycle is printed in full: pop and popfirst only re-slice their receiver, they store nothing into the backing array another reference still covers (a nil left there crashes the renderer)", keyHas("array.pop", "array.popfirst"), func(s *Ctx) { c15R2(s, nativeMethods(s.P)) })
 	defer c.shared("R11", "C02/R4", "a rule without a body prints $ exactly as a bare print does: the parser gives it a print statement without arguments, and every matched rule's action is the evaluation of its body statement (nothing prints on its behalf)", keyHas("matched-rule-body-not-skipped", "bodyless-rule-prints", "body-of-ranged-rule"), c02R4)
 	defer c.shared("R8", "C13/R6", "a bare print prints $: print followed by a newline has an empty argument list only if the newline ends the statement whatever the next line starts with", keyHas("newline-ends-statement", "statement-end-caller (*lang.Parser).printStatement", "flag-read"), c13NewlineFlag)
 	p := c.P
+	printArgumentsCommaFirst(c, "R13")
 	es := p.LangFunc("(*Evaluator).evalStatement")
 	if es == nil {
 		c.undecided("R1", "evalStatement", "", "anchor not found")
@@ -512,4 +514,78 @@ func variadicElems(v ssa.Value) []ssa.Value {
 		out = append(out, e.v)
 	}
 	return out
+}
+
+// printArgumentsCommaFirst: print takes every argument of its list. After an argument has been
+// parsed the parser looks for the comma before it asks whether the statement has ended: an argument
+// may leave the statement-end flag set (a match expression sets it at its closing brace), and only
+// consuming the comma clears it.
+func printArgumentsCommaFirst(c *Ctx, rule string) {
+	p := c.P
+	c.note("%s print-arguments-comma-first: in the print statement's parser every path from the parsing of an argument to the next statement-end test passes the test of the current token against Comma.", rule)
+	ps := p.LangFunc("(*Parser).printStatement")
+	if ps == nil {
+		c.undecided(rule, "printStatement", "", "anchor not found")
+		return
+	}
+	var exprCalls, aseCalls []ssa.CallInstruction
+	{
+		for _, call := range callsIn(ps) {
+			switch {
+			case staticCalleeIs(call, "(*lang.Parser).expression") || staticCalleeIs(call, "(*lang.Parser).expressionWithPrec"):
+				exprCalls = append(exprCalls, call)
+			case staticCalleeIs(call, "(*lang.Parser).atStatementEnd"):
+				aseCalls = append(aseCalls, call)
+			}
+		}
+	}
+	if len(exprCalls) == 0 || len(aseCalls) == 0 {
+		c.undecided(rule, "print-arguments-comma-first", p.Pos(ps.Pos()), "the argument parse or the statement-end test was not found in printStatement")
+		return
+	}
+	commaTest := map[*ssa.BasicBlock]bool{}
+	for _, b := range ps.Blocks {
+		ifi, ok := b.Instrs[len(b.Instrs)-1].(*ssa.If)
+		if !ok {
+			continue
+		}
+		if rl, ok := relsOf(fact{ifi.Cond, true}); ok && (rl.op == relEQ || rl.op == relNE) {
+			txt := p.RenderShort(rl.x) + " " + p.RenderShort(rl.y)
+			if strings.Contains(txt, "p.current.Tag") && strings.Contains(txt, "Comma") {
+				commaTest[b] = true
+			}
+		}
+	}
+	// … or hands the comma to a helper that looks for it (`p.accept(Comma)`)
+	commaTag := int64(-1)
+	for v, n := range constNames(p.Lang.Types, "TokenTag") {
+		if n == "Comma" {
+			commaTag = v
+		}
+	}
+	for _, call := range callsIn(ps) {
+		if staticCalleeIs(call, "(*lang.Parser).consume") {
+			continue // consuming is not looking: it fails on anything else
+		}
+		for _, a := range call.Common().Args {
+			if k, ok := constInt(a); ok && k == commaTag && isLangNamed(a.Type(), "TokenTag") {
+				commaTest[call.Block()] = true
+			}
+		}
+	}
+	for i, ec := range exprCalls {
+		bad := ""
+		for _, ac := range aseCalls {
+			if ac.Block() == ec.Block() && instrIndex(ac) > instrIndex(ec) && !commaTest[ec.Block()] {
+				bad = p.InstrPos(ac)
+			}
+			if commaTest[ec.Block()] {
+				continue
+			}
+			if reachableFrom(ec.Block().Succs, commaTest)[ac.Block()] && !commaTest[ac.Block()] {
+				bad = p.InstrPos(ac)
+			}
+		}
+		c.check(bad == "", rule, fmt.Sprintf("print-arguments-comma-first #%d", i+1), p.InstrPos(ec), "after an argument the comma is looked for before the statement end", "after an argument the statement-end test ("+bad+") can be reached without the comma test: an argument that leaves the statement-end flag set (`print match (x) { … }, y`) ends the list, and the rest is a syntax error")
+	}
 }
